@@ -97,7 +97,8 @@ def run_case(case, sb):
             if not (A[k] == B[k] == C[k]):
                 problems.append({"field": k, "collect": A[k], "next": B[k], "fast_forward": C[k]})
         n_all = len(A["lines"])
-        for n in range(1, n_all + 2):
+        # (the n-th yield of next() is the reference below: only meaningful when the full runs agree)
+        for n in (range(1, n_all + 2) if not problems else ()):
             D = real.run_path(text, method="collect", nexts=n)
             if D["raised"]:
                 problems.append({"nexts": n, "raised": D["raised"]})
@@ -105,7 +106,7 @@ def run_case(case, sb):
             if D["lines"] != A["lines"][:n]:
                 problems.append({"nexts": n, "expected_lines": A["lines"][:n], "observed": D["lines"]})
                 break
-            if n <= n_all:
+            if n <= n_all and n <= len(B["snapshots"]):
                 snap = B["snapshots"][n - 1]
                 for k in snap:
                     if k == "unmatched":
